@@ -462,7 +462,8 @@ package proxy
 //@   trusted A-temporal: a replication batch holds non-nil task objects whose ids are below 2^62
 //@   ensures result0 != nil && msgsOf(result0) != nil ==> forall k int :: { msgsOf(result0).ReplicationTasks[k] } 0 <= k && k < len(msgsOf(result0).ReplicationTasks) ==>
 //@              msgsOf(result0).ReplicationTasks[k] != nil && (msgsOf(result0).ReplicationTasks[k].RawTaskInfo != nil ==> msgsOf(result0).ReplicationTasks[k].RawTaskInfo.TaskId < MaxID && msgsOf(result0).ReplicationTasks[k].RawTaskInfo.TaskId > MinInt64)
-//@   assigns nothing
+//@   ensures r.wmOnly == old(r.wmOnly) + ite(result1 == nil && result0 != nil && typeis(result0.Attributes, "*adminservice.StreamWorkflowReplicationMessagesResponse_Messages") && msgsOf(result0) != nil && len(msgsOf(result0).ReplicationTasks) == 0, 1, 0)
+//@   assigns r.wmOnly
 //@ extern quiet (ShardManager).GetRemoteSendChansByCluster
 //@ extern quiet (ShardManager).GetRemoteShardsForPeer
 //@ extern proto.Clone@(*proxyStreamReceiver).recvReplicationMessages(m)
@@ -487,8 +488,14 @@ package proxy
 
 // Whenever a task message is handed to the shard manager: it goes to the key of its group, carries exactly that
 // group's tasks (every one owned by that shard), an exclusive high watermark of last id + 1 and the batch priority.
+// wmOnly: number of watermark-only batches received on this stream (ghost). C03, safety side of 'eventually
+// complete': EVERY watermark-only batch is broadcast to the targets - also one that repeats the previous watermark,
+// because the broadcast is non-blocking and a repeat is what repairs a drop at a full queue.
+//@ ghost proxyStreamReceiver.wmOnly int
 //@ contract (*proxyStreamReceiver).recvReplicationMessages
-//@   props C02 C01 C04
+//@   props C02 C01 C04 C03
+//@   counts GetRemoteSendChansByCluster
+//@   loop 1 invariant @every_watermark_broadcast: calls(GetRemoteSendChansByCluster) == r.wmOnly - old(r.wmOnly)
 //@   wakeup shutdownChan.Channel()
 //@   arith wrap
 //@   requires !(r.sourceShardID.ClusterID == 0 && r.sourceShardID.ShardID == 0) && r.ackByTarget != nil && !fresh(r.ackByTarget)
